@@ -298,7 +298,8 @@ def r19a_keys(ctx):
 # end the taint; a return/yield, an argument of another function, indexing, an effect performed per element ... is a
 # sink.  A read that reaches a sink is a violation unless the order-permuting differential evaluation below discharges it.
 
-ORDER_FREE_CALLS = {"sorted", "set", "frozenset", "any", "all", "sum", "len", "min", "max", "Mul", "Add", "Counter", "bool", "prod", "fsum"}
+ORDER_FREE_CALLS = {"sorted", "set", "frozenset", "any", "all", "sum", "len", "min", "max", "Mul", "Add", "Counter", "bool", "prod", "fsum",
+                    "isinstance", "type"}
 PASS_THROUGH_CALLS = {"list", "tuple", "enumerate", "zip", "reversed", "iter", "map", "filter", "chain", "from_iterable",
                       "product", "permutations", "combinations", "combinations_with_replacement", "islice", "deque"}
 SET_METHODS = {"atoms", "intersection", "union", "difference", "symmetric_difference", "free_symbols"}
@@ -1177,6 +1178,8 @@ def _diff_evaluate_deltas(ctx, order, log):
         o = Obj(None, f"{kind}[{','.join(i.name for i in idx)}]")
         o.attrs["_classes"] = {"KroneckerDelta"} if kind == "delta" else {"AntiSymmetricTensor", "SymbolicTensor"}
         o.attrs["atoms"] = lambda sx_, a, kw, idx=idx: set(idx)
+        o.attrs["has"] = lambda sx_, a, kw, idx=idx: any(x is i for i in idx for x in a)
+        o.attrs["is_commutative"] = kind not in ("F", "Fd")
         o.__dict__["kind"], o.__dict__["idx"] = kind, list(idx)
         if kind == "delta":
             o.attrs["preferred_and_killable"] = pk
@@ -1218,6 +1221,26 @@ def _diff_evaluate_deltas(ctx, order, log):
                         hooks={"get_symbols": lambda s_, a_, k_: list(a_[0]) if isinstance(a_[0], (list, tuple)) else NotImplemented})
         outs = sx.run(fn, lambda: dict(zip(("expr", "target_idx"), scen(k))))
         res.append(sorted((o.kind, o.value.name if isinstance(o.value, Obj) else _okey(o.value)) for o in outs))
+    # wicks with simplify_kronecker_deltas: the target indices of the input (indices on a single object, collected in a dict in
+    # the order of atoms()) are handed to evaluate_deltas for every contracted term
+    p_, q_, r_, s_, i_ = (_idx(n) for n in "pqrsi")
+
+    def wicks_args():
+        e_in = mul([factor("d", [p_, q_]), factor("X", [r_, s_]), factor("Fd", [p_]), factor("F", [q_])])
+        e_in.attrs["doit"] = lambda sx_, a, kw: e_in
+        e_in.attrs["expand"] = lambda sx_, a, kw: e_in
+        return dict(expr=e_in, rules=None, simplify_kronecker_deltas=True)
+
+    def terms(sx_, a, kw):
+        return [mul([factor("d", [p_, q_]), factor("X", [r_, s_]), factor("delta", [p_, q_], (p_, q_)), factor("delta", [q_, i_], (i_, q_))]),
+                mul([factor("d", [p_, q_]), factor("X", [r_, s_]), factor("delta", [r_, q_], (r_, q_)), factor("delta", [p_, s_], (s_, p_))])]
+    sx = OrderSymex(ctx.model, inline=lambda q: q in ("func:wicks", "func:evaluate_deltas", "func:_indices_on_single_object"), order=order, log=log,
+                    what="wicks", max_paths=512,
+                    hooks={"get_symbols": lambda s_2, a_, k_: list(a_[0]) if isinstance(a_[0], (list, tuple)) else NotImplemented,
+                           "_contract_operator_string": lambda s_2, a_, k_: sym("contractions"),
+                           "Add.make_args": terms, "Mul.make_args": lambda s_2, a_, k_: list(a_[0].attrs["args"]) if isinstance(a_[0], Obj) else NotImplemented})
+    outs = sx.run(ctx.model.fn("func:wicks"), wicks_args)
+    res.append(sorted((o.kind, repr(canon(o.value)) if o.kind == "return" else str(o.exc)) for o in outs))
     return res
 
 
